@@ -31,11 +31,22 @@ for d in sorted(glob.glob("seeded/*/meta.json")):
         subprocess.run("git -C /repo checkout -- .", shell=True)
     rows.append((sid, m, res))
     print(sid, res, flush=True)
-if not only:
+# results are cached per seed (the latest run of each counts), so that partial runs keep SUMMARY.md complete
+import ast
+CACHE = "seeded/results.json"
+cache = json.load(open(CACHE)) if os.path.exists(CACHE) else {}
+for sid, m, res in rows:
+    cache[sid] = res
+json.dump(cache, open(CACHE, "w"), indent=1, sort_keys=True)
+rows = []
+for d in sorted(glob.glob("seeded/*/meta.json")):
+    m = json.load(open(d))
+    rows.append((m["id"], m, cache.get(m["id"], {"(not run since import)": ""})))
+if True:
     with open("seeded/SUMMARY.md", "w") as f:
         f.write("# Seeded breaking changes and the checks that catch them\n\n"
                 "Produced by fresh sub-agents (property text + scratch worktree only), confirmed in the scratch worktree, then applied to\n"
-                "/repo's working tree, checked (quick tier) and reverted by tools/seedcheck.py.  `strengthened` = what was added after a first miss.\n\n"
+                "/repo's working tree, checked (quick tier) and reverted by tools/seedcheck.py (latest result per change, cached in results.json).  `strengthened` = what was added after a first miss.\n\n"
                 "| id | needs | result per check | strengthened after a first miss |\n|---|---|---|---|\n")
         for sid, m, res in rows:
             f.write("| %s | %s | %s | %s |\n" % (sid, m["needs"].replace("|", "/"), "; ".join("%s: %s" % kv for kv in res.items()),
